@@ -15,6 +15,7 @@ From LC Require Import Base.Lib Gen.Keyboard_gen Model.Keyboard Gen.Editor_gen M
      Model.EdInst Proofs.CompositionProofs Proofs.EdInstProofs Proofs.EditorInv Proofs.EditorWitness Proofs.EditorSelect Proofs.NoPanic Proofs.KeyEventsOk Proofs.GraphPath Model.Engine Proofs.EngineProofs Proofs.SimpleEngineProofs Model.CapiKeys Model.CapiConfig Model.CapiRun Proofs.CapiKeysProofs.
 From Coq Require Import ZArith Permutation.
 From LC Require Model.Config.
+From LC Require Proofs.LearnProofs.
 Import ListNotations.
 Open Scope nat_scope.
 
@@ -135,7 +136,6 @@ Variable ss0 : symbol_sel.
 Hypothesis ss0_good : ss_good ss0.
 Hypothesis ss0_fresh : ss_cursor ss0 = None.
 Hypothesis ok_text : forall d f k p, dict_ok d -> In p (do_lookup dops d f k) -> fst p <> [].
-Hypothesis ok_freq : forall d f k p, dict_ok d -> In p (do_lookup dops d f k) -> (snd p < 4000000000)%N.
 Hypothesis conv_tiles : forall d k c n, dict_ok d -> wf_comp c -> contiguous 0 (clen c) (conv d k c n) = true.
 
 Theorem C01_every_operation_total : forall e o, op_fine o -> Inv dops sops dict_ok ss0 e ->
@@ -241,6 +241,23 @@ Theorem C01_score_huge_frequency_fixed : score huge_path = Ok 2147483647%Z.
 Proof. vm_compute. reflexivity. Qed.
 Print Assumptions C01_score_huge_frequency_fixed.
 
+(* The second arithmetic site that needed a frequency hypothesis ("frequencies below 4 * 10^9"): the pinned
+   `LaxUserFreqEstimate::estimate` added in u32 without saturation.  Two phrases of one key with frequencies within
+   ten of 2^32: learning the lower one panics in a build with overflow checks (the profile the test suite runs in)
+   and wraps in a release build.  Replayed on the implementation (sys 測 4294967290 / 冊 4294967295, learn 測);
+   repaired by a saturating addition; the theorems above carry no frequency hypothesis any more *)
+Theorem C01_estimate_near_u32_max_pinned_refuted : estimate_pinned 4294967290 4294967290 4294967295 = Panic 402.
+Proof. vm_compute. reflexivity. Qed.
+Print Assumptions C01_estimate_near_u32_max_pinned_refuted.
+
+Theorem C01_estimate_near_u32_max_fixed : estimate 4294967290 4294967290 4294967295 = Ok MAX_USER_FREQ.
+Proof. vm_compute. reflexivity. Qed.
+Print Assumptions C01_estimate_near_u32_max_fixed.
+
+Theorem C01_estimate_total_for_all_frequencies : forall f m : N, (f <= m)%N -> exists u, estimate f f m = Ok u.
+Proof. exact LearnProofs.estimate_never_panics. Qed.
+Print Assumptions C01_estimate_total_for_all_frequencies.
+
 (* ---- the hypotheses can be met (non-vacuity) ---- *)
 (* every key event the C API builds is admitted: the character is printable ASCII or U+FFFD *)
 Theorem C01_capi_key_events_are_ok : forall ev,
@@ -293,7 +310,6 @@ Proof.
   - exact md_fine_remove.
   - reflexivity.
   - intros d0 f k p. apply md_fine_text.
-  - intros d0 f k p. apply md_fine_freq.
 Qed.
 Print Assumptions C01_no_history_panics_or_hangs_instance.
 
@@ -349,7 +365,6 @@ Proof.
   - exact md_fine_remove.
   - intros [L0 st0] c. reflexivity.
   - intros d0 f k p. apply md_fine_text.
-  - intros d0 f k p. apply md_fine_freq.
   - exact m_conv_tiles.
 Qed.
 Print Assumptions C01_no_history_panics_or_hangs_all_layouts_modelled_engines.
